@@ -1,7 +1,7 @@
 (* Wire functions of the sampler models (C16, C15, C19). *)
 From Coq Require Import List Arith ZArith QArith Qabs Lia Bool.
 From PGA Require Import Wire WireMisc.
-From PGAwip Require Import Shuffle Stat.
+From PGA Require Import Sampler.Shuffle Sampler.Stat Sampler.Cst.
 Import ListNotations.
 Local Open Scope Z_scope.
 
@@ -79,6 +79,22 @@ Fixpoint roles_annotators (prec : Q) (ncat nann : nat) (empty_so_far : bool) (st
 Definition putSUnit (u : sunit) : list Z := putQ (su_s u) ++ putQ (su_e u) ++ [Z.of_nat (su_cat u)].
 Definition getRUnit : P runit := s <- getQ ;; e <- getQ ;; c <- getNat ;; ret (mkRU s e c).
 
+(* ---- corpus shuffling tool ---- *)
+Definition getCDraw : P cdraw :=
+  k <- getNat ;;
+  match k with
+  | 0%nat => x <- getQ ;; ret (CUniform x)
+  | 1%nat => x <- getQ ;; ret (CNormal x)
+  | 2%nat => x <- getQ ;; ret (CRandom x)
+  | 3%nat => i <- getNat ;; ret (CChoice i)
+  | 4%nat => i <- getNat ;; ret (CRandint i)
+  | _ => fun _ => None
+  end.
+Definition getCUnit : P cunit := s <- getQ ;; e <- getQ ;; c <- getNat ;; ret (mkCU s e c).
+Definition putCUnit (u : cunit) : list Z := putQ (cs u) ++ putQ (ce u) ++ [Z.of_nat (cc u)].
+(* int(x) for x >= 0 *)
+Definition trunc_nat (x : Q) : nat := Z.to_nat (Qround.Qfloor x).
+
 Definition run_sampler (fn : nat) : list Z -> list Z :=
   match fn with
   | 0%nat =>
@@ -103,5 +119,19 @@ Definition run_sampler (fn : nat) : list Z -> list Z :=
               putQ (Stat.qmean (all_gaps ref)) ++ putQ (Stat.qvar (all_gaps ref)) ++
               putQ (Stat.qmean (all_durations ref)) ++ putQ (Stat.qvar (all_durations ref)) ++
               putList (fun c => putQ (cat_weight ref c)) (seq 0 ncat))
+  | 20%nat => (* corpus_shuffle: the iteration counts and shift_max are derived here from the magnitude, the class constants and the reference's statistics *)
+    finish (prec <- getQ ;; m <- getQ ;; shf <- getQ ;; spf <- getQ ;; fpf <- getQ ;;
+            rnann <- getNat ;; rnunits <- getNat ;; ravg <- getQ ;;
+            o1 <- getBool ;; o2 <- getBool ;; o3 <- getBool ;; o4 <- getBool ;; o5 <- getBool ;;
+            corpus <- getList (getList getCUnit) ;; st <- getList getCDraw ;;
+            ret (prec, m, shf, spf, fpf, rnann, rnunits, ravg, mkOpts o1 o2 o3 o4 o5, corpus, st))
+           (fun '(prec, m, shf, spf, fpf, rnann, rnunits, ravg, o, corpus, st) =>
+              let shift_max := (m * shf * ravg)%Q in
+              let kpos := trunc_nat (m * fpf * inject_Z (Z.of_nat rnann))%Q in
+              let ksplit := trunc_nat (m * spf * (inject_Z (Z.of_nat rnunits) / inject_Z (Z.of_nat rnann)))%Q in
+              match cst_run prec m shift_max kpos ksplit o corpus st with
+              | Some (c, st') => [1; Z.of_nat (length st'); Z.of_nat kpos; Z.of_nat ksplit] ++ putList (putList putCUnit) c
+              | None => [0; Z.of_nat kpos; Z.of_nat ksplit]
+              end)
   | _ => fun _ => [-2]
   end.
